@@ -397,12 +397,8 @@ def run_scenarios(ctx, child, scen):
         rc, so, se = strace_child(child, ["op", "put", d, sc["id"], sc["datafile"]] + sc["mode"], log, inject=(name, n))
         # verify the kill happened where intended
         main, scs = parse_strace(log)
-        mine = [s for s in scs]
-        ok = bool(mine) and mine[-1].name == name and len([s for s in mine if s.name == name]) == n \
-            and so == "" and mine[-1].args[:60].split("<")[0].strip() == sc["scs"][idx].args[:60].split("<")[0].strip()[:len(mine[-1].args[:60].split("<")[0].strip())]
-        if not ok:
-            # address-dependent arguments may differ; fall back to name+ordinal+no output
-            ok = bool(mine) and mine[-1].name == name and len([s for s in mine if s.name == name]) == n and so == ""
+        mine = scs
+        ok = bool(mine) and mine[-1].name == name and len([x for x in mine if x.name == name]) == n and so == ""
         if not ok:
             raise vlib.HarnessError("kill injection did not land on %s #%d in %s (rc=%d, out=%r)" % (name, n, sc["name"], rc, so[:80]))
         return (sc, idx, nops, what, read_state(d), d)
@@ -692,13 +688,9 @@ def end_to_end(ctx, rng):
         os.makedirs(os.path.dirname(p), exist_ok=True)
         with open(p, "w") as f:
             f.write(txt)
-    gocache = ctx.path("e2e", "gocache", "x")
-    gocache = os.path.dirname(gocache)
 
     def lint(cache):
-        env = vlib.go_env({"STATICCHECK_CACHE": cache, "GOCACHE": os.environ.get("GOCACHE", "") or gocache})
-        if not os.environ.get("GOCACHE"):
-            env.pop("GOCACHE")
+        env = vlib.go_env({"STATICCHECK_CACHE": cache})
         rc, so, se = vlib.run([sc, "-checks", "all,-ST1000", "./..."], cwd=mod, env=env, timeout=600)
         return rc, so, se
 
